@@ -1605,7 +1605,7 @@ func (x *Exec) doUnOp(st *State, in *ssa.UnOp) Value {
 		if ti.Kind == "float" {
 			panic("unsupported:float-negation")
 		}
-		return VInt{x.arith(ti, Sub(IntC(0), x.intOf(v)))}
+		return VInt{x.arith(st, ti, Sub(IntC(0), x.intOf(v)), in)}
 	case token.XOR:
 		ti, _ := x.tinfo(in.Type())
 		if ti.Signed {
@@ -1618,8 +1618,16 @@ func (x *Exec) doUnOp(st *State, in *ssa.UnOp) Value {
 
 // arith applies the overflow semantics of type ti to a mathematical result.
 // 64-bit types are treated as mathematical integers (assumption "int64-no-overflow").
-func (x *Exec) arith(ti TypeInfo, t *Term) *Term {
+func (x *Exec) arith(st *State, ti TypeInfo, t *Term, in ssa.Instruction) *Term {
 	if ti.Width >= 8 {
+		if t.IsConst() {
+			return wrap(ti, t)
+		}
+		if ovfObligations {
+			// the mathematical result is the machine result if it is representable: an obligation of the safety run
+			x.oblige(st, "safe", fmt.Sprintf("no-overflow(%s%d)@b%d", ti.Kind, 8*ti.Width, in.Block().Index), inRange(ti, t), "64-bit arithmetic does not overflow (the result is modelled as a mathematical integer)")
+			return t
+		}
 		x.V.assumptionsUsed["machine-int64-as-mathematical"] = true
 		return t
 	}
@@ -1670,11 +1678,11 @@ func (x *Exec) doBinOp(st *State, in *ssa.BinOp) Value {
 	case token.GEQ:
 		return VBool{Ge(p, q)}
 	case token.ADD:
-		return VInt{x.arith(ti, Add(p, q))}
+		return VInt{x.arith(st, ti, Add(p, q), in)}
 	case token.SUB:
-		return VInt{x.arith(ti, Sub(p, q))}
+		return VInt{x.arith(st, ti, Sub(p, q), in)}
 	case token.MUL:
-		return VInt{x.arith(ti, Mul(p, q))}
+		return VInt{x.arith(st, ti, Mul(p, q), in)}
 	case token.QUO:
 		x.oblige(st, "safe", fmt.Sprintf("div-by-zero@b%d", in.Block().Index), Neq(q, IntC(0)), "divisor is not zero")
 		if !ti.Signed {
